@@ -1,4 +1,4 @@
-\* C18 RangeLock as written (common/range-lock.h). c18.py derives from this file: the same scope restricted to the region outside the recorded findings (must pass) and one expected-counterexample run per recorded finding.
+\* C18 RangeLock as written (common/range-lock.h). c18.py derives from this file: the same scope restricted to the region outside the recorded findings (must pass) and one expected-counterexample run per recorded finding. Quick tier: word 0..2, callers use lock() (handle API, retry loop over try_lock_wait2) and try_lock_wait (range API); the thorough tier adds try_lock_wait2 as a call of its own and word 0..3.
 SPECIFICATION Spec
 CONSTANTS
   MAXU = 2
